@@ -234,7 +234,8 @@ def expm1S (e0 em0 : K) (x : List K) : List K := blackWhiteS em0 (expS e0 x) x
 def log1pS (l0 : K) (x : List K) : List K := blackWhiteS l0 (recipS (plusConstS x 1)) x
 /-- algorithms.py:730-734 `_logit` -/
 def logitS (l0 : K) (x : List K) : List K := blackWhiteS l0 (recipS (subS x (squareS x))) x
-/-- algorithms.py:743-748 `_expit` -/
+/-- algorithms.py `_expit`: the code forms the derivative series as the product `b·c`, `b = 1/(1+exp x)`, `c = 1/(1+exp(−x))`
+(accurate in floating point for negative `x_0`); in exact arithmetic `c = 1 − b`, so this is the series `b − b²` the model evaluates -/
 def expitS (e0 f0 : K) (x : List K) : List K :=
   let b := recipS (plusConstS (expS e0 x) 1)
   blackWhiteS f0 (subS b (squareS b)) x
